@@ -23,7 +23,8 @@ FAMILIES = {
     "C27": dict(cfgs=[("MC_ClientLib_C27.cfg", 7, 8), ("MC_ClientLib_C27u.cfg", 10, 11, "all"),
                       ("MC_ClientLib_C27q.cfg", 13, 15, "all")], devs=[], quick_sample=150, sim=(60, 30),
                 repeat=1, repeat_thorough=3, vectors=True),
-    "C28": dict(cfgs=[("MC_ClientLib_C28.cfg", 5, 6), ("MC_ClientLib_C28ka.cfg", 5, 6)], devs=["KaSync", "NilOnTerminate"],
+    "C28": dict(cfgs=[("MC_ClientLib_C28.cfg", 5, 6), ("MC_ClientLib_C28ka.cfg", 5, 6),
+                      ("MC_ClientLib_C28r.cfg", 5, 6, "all")], devs=["KaSync", "NilOnTerminate"],
                 devsigs=["C28/goroutines-after-end"],
                 devcfg="MC_ClientLib_C28ka.cfg", quick_sample=2600, sim=(60, 25)),
     "C33": dict(cfgs=[("MC_ClientLib_C33.cfg", 7, 9), ("MC_ClientLib_C33b.cfg", 7, 8), ("MC_ClientLib_C33c.cfg", 7, 8),
